@@ -110,7 +110,8 @@ structure Faults where
   importOther : Bool := false
   /-- the constructor `module.Class(irc)` raises -/
   ctorRaises : Bool := false
-  /-- `die()` of the old instance raises -/
+  /-- `die()` of the old instance raises: `die` is in `__firewalled__`, the exception is logged
+      and swallowed, so this has no effect on `unload` / `reload` -/
   dieRaises : Bool := false
 deriving DecidableEq, Repr
 
@@ -145,7 +146,7 @@ def load (ord : Ord) (cbs : Cbs) (name : Name) (avail : Option Plugin) (f : Faul
         | .ok cbs' => (.success, cbs')
 
 /-- `Owner.unload` -/
-def unload (cbs : Cbs) (name : Name) (f : Faults) : Reply × Cbs :=
+def unload (cbs : Cbs) (name : Name) (_f : Faults) : Reply × Cbs :=
   if isOwnerName name then (.error "can't unload Owner", cbs)
   else
     match getCallback cbs name with
@@ -153,7 +154,6 @@ def unload (cbs : Cbs) (name : Name) (f : Faults) : Reply × Cbs :=
     | some old =>
       let (bad, good) := removeCallback cbs old.name
       if bad.isEmpty then (.error "no plugin", good)
-      else if f.dieRaises then (.exception, good)
       else (.success, good)
 
 /-- re-adding the old callbacks after a failed import (`for callback in callbacks: irc.addCallback`) -/
@@ -176,7 +176,6 @@ def reload (ord : Ord) (cbs : Cbs) (name : Name) (avail : Option Plugin) (f : Fa
       | .ok cbs' => (.error "no plugin", cbs')
       | .error (_, cbs') => (.exception, cbs')
     else if f.importOther then (.exception, good)           -- not an ImportError: nothing is restored
-    else if f.dieRaises then (.exception, good)             -- old instance half dead, not restored
     else if f.ctorRaises then (.exception, good)            -- old instance dead, new one never built
     else
       match avail with
